@@ -192,11 +192,55 @@ fn one(c: &mut Ctx, fam: &str, idx: u64, keys: &[TestKey], log: &mut Option<std:
     let mut pick = |r: &mut Rng| pool.pick(r);
     let n = rng.range(1, 4);
     let mut rdatas: Vec<Vec<u8>> = Vec::new();
+    // half of the multi-record sets are siblings: copies of the first record that differ in one field only (another name
+    // of the pool - of another length, under another parent - or one octet of an opaque field), so that the order of the
+    // set is decided late in the RDATA, by exactly the field the type's canonical comparison treats specially
+    let siblings = n > 1 && rng.bool();
+    let mut first: Option<Vec<w::Fv>> = None;
     for _ in 0..n {
-        let fs = g::fields(&mut rng, t, &mut pick);
+        let fs = match (&first, siblings) {
+            (Some(f0), true) => {
+                let mut f = f0.clone();
+                let name_fields: Vec<usize> = f.iter().enumerate().filter(|(_, x)| matches!(x, w::Fv::Name { .. })).map(|(i, _)| i).collect();
+                if !name_fields.is_empty() && rng.chance(3, 4) {
+                    let k = *rng.pick(&name_fields);
+                    if let w::Fv::Name { wire, .. } = &mut f[k] {
+                        *wire = match rng.below(3) {
+                            0 => pick(&mut rng),
+                            1 => {
+                                // a sibling of the name: first label one octet longer or shorter, or another parent
+                                let mut n2 = wire.clone();
+                                if n2.len() > 2 && n2[0] > 1 && n2.len() < 250 {
+                                    if rng.bool() { n2[0] += 1; n2.insert(1, b'z'); } else { n2[0] -= 1; n2.remove(1); }
+                                }
+                                n2
+                            }
+                            _ => gn::case_variant(&mut rng, wire),
+                        };
+                    }
+                } else {
+                    let raws: Vec<usize> = f.iter().enumerate().filter(|(_, x)| matches!(x, w::Fv::Raw(r) if !r.is_empty())).map(|(i, _)| i).collect();
+                    if let Some(k) = raws.last().copied() {
+                        if let w::Fv::Raw(r) = &mut f[k] {
+                            let p = r.len() - 1;
+                            r[p] = r[p].wrapping_add(1 + rng.below(3) as u8);
+                        }
+                    }
+                }
+                c.count("sibling_records", 1);
+                f
+            }
+            _ => g::fields(&mut rng, t, &mut pick),
+        };
+        if first.is_none() {
+            first = Some(fs.clone());
+        }
         let rd = w::compose_fields(&fs);
         if rd.len() > 400 {
             continue;
+        }
+        if siblings && try_sdata(t, &rd).is_none() {
+            continue; // the changed octet made the value one the type does not allow
         }
         let Some(cn) = canonical_rdata(t, &rd) else { continue };
         if rdatas.iter().any(|x| canonical_rdata(t, x).as_ref() == Some(&cn)) {
@@ -670,7 +714,7 @@ pub fn run(c: &mut Ctx) {
         if c.out_of_time() {
             break;
         }
-        ctx::slot_write(idx, "C12 rrset", &[]);
+        ctx::slot_write(idx, &format!("{}|case", fam), &[]);
         one(c, fam, idx, &keys, &mut log);
     }
     if !c.replaying() {
